@@ -14,7 +14,42 @@ def sh(cmd, **kw):
     return subprocess.run(cmd, shell=True, capture_output=True, text=True, **kw)
 
 
+def reverts():
+    """re-evaluate every reverse-of-fix patch under seeded/*-revert-*/"""
+    assert sh("git -C /repo status --porcelain").stdout.strip() == "", "/repo is not clean"
+    for dest in sorted(glob.glob("/verif/seeded/*-revert-*/")):
+        meta = json.load(open(dest + "meta.json"))
+        prop = meta["property"]
+        r = sh(f"git -C /repo apply {dest}patch.diff")
+        if r.returncode != 0:
+            meta["check_results"] = {prop: {"exit": -1, "what": "patch no longer applies to HEAD (later fixes touch the same lines)"}}
+            meta["detected"] = None
+            json.dump(meta, open(dest + "meta.json", "w"), indent=1)
+            print(os.path.basename(dest.rstrip("/")), "does not apply")
+            continue
+        try:
+            suite = sh("cd /repo && /venv/bin/python -m pytest -q -p no:cacheprovider --timeout=900 2>&1 | tail -1").stdout.strip()
+            rr = sh(f"cd /verif && ./check {prop} --tier quick")
+            lines = [l for l in rr.stdout.splitlines() if l.startswith("VIOLATION")]
+            res = {"exit": rr.returncode, "lines": [l[:300] for l in lines][:3]}
+            for l in lines:
+                if "replay=" in l:
+                    try:
+                        j = json.load(open(l.split("replay=")[1].split()[0]))
+                        res["what"] = str(j.get("what") or j.get("kind"))[:300]
+                    except Exception:   # noqa
+                        pass
+                    break
+        finally:
+            sh("git -C /repo checkout -- .")
+        meta.update({"suite_on_mutated_tree": suite, "check_results": {prop: res}, "detected": rr.returncode != 0, "tier": "quick"})
+        json.dump(meta, open(dest + "meta.json", "w"), indent=1)
+        print(os.path.basename(dest.rstrip("/")), "exit", rr.returncode, res.get("what", "")[:120])
+
+
 def main():
+    if sys.argv[1] == "--reverts":
+        return reverts()
     prop, d = sys.argv[1], sys.argv[2]
     tier = sys.argv[sys.argv.index("--tier") + 1] if "--tier" in sys.argv else "quick"
     also = sys.argv[sys.argv.index("--also") + 1].split(",") if "--also" in sys.argv else []
